@@ -96,13 +96,13 @@ func (r *Reporter) loadKnown() {
 	}
 }
 
-func (r *Reporter) SetRule(s string)        { r.Rule = s }
-func (r *Reporter) Assume(s ...string)      { r.assume = append(r.assume, s...) }
-func (r *Reporter) Exhaustive(b bool)       { r.exh = &b }
-func (r *Reporter) Eval(n int)              { r.evals.Add(int64(n)) }
-func (r *Reporter) Evals() int64            { return r.evals.Load() }
-func (r *Reporter) Elapsed() time.Duration  { return time.Since(r.start) }
-func (r *Reporter) Thorough() bool          { return r.Tier == "thorough" }
+func (r *Reporter) SetRule(s string)       { r.Rule = s }
+func (r *Reporter) Assume(s ...string)     { r.assume = append(r.assume, s...) }
+func (r *Reporter) Exhaustive(b bool)      { r.exh = &b }
+func (r *Reporter) Eval(n int)             { r.evals.Add(int64(n)) }
+func (r *Reporter) Evals() int64           { return r.evals.Load() }
+func (r *Reporter) Elapsed() time.Duration { return time.Since(r.start) }
+func (r *Reporter) Thorough() bool         { return r.Tier == "thorough" }
 func (r *Reporter) Pick(quick, thorough int) int {
 	if r.Thorough() {
 		return thorough
@@ -210,11 +210,21 @@ func (r *Reporter) Require(name string, min int64) {
 	}
 }
 
+// OutDir is where a run keeps its replay files, dumps and logs: one directory
+// per supervisor process (VERIF_RUN_DIR), so that concurrent runs of the same
+// check never read or remove each other's files.
+func OutDir(id string) string {
+	if d := os.Getenv("VERIF_RUN_DIR"); d != "" {
+		return d
+	}
+	return filepath.Join(Root, "out", id)
+}
+
 // Finish prints verdict lines, writes evidence, returns the exit code.
 func (r *Reporter) Finish() int {
 	r.mu.Lock()
 	defer r.mu.Unlock()
-	outDir := filepath.Join(Root, "out", r.ID)
+	outDir := OutDir(r.ID)
 	os.MkdirAll(outDir, 0755)
 	// VERIF_EVIDENCE_DIR: exploration runs (other seeds, scratch copies of the
 	// repository) write their evidence elsewhere; the registered commands never set it.
